@@ -13,7 +13,7 @@
 (* call violates; the outcome is allowed iff the set is empty.  ClauseProp *)
 (* maps each clause to the listed properties it is part of.                *)
 (***************************************************************************)
-EXTENDS Codec
+EXTENDS Codec, SpanOps
 
 VARIABLES used, cfg, ncalls
 apiVars == <<used, cfg, ncalls>>
@@ -76,6 +76,10 @@ ClauseProp ==
     nocopy_follows |-> {"C14"},
     recheck_stable |-> {"C06"},
     mem_crash      |-> {"C06"},
+    span_aligned   |-> {"C06"},
+    span_inblock   |-> {"C06"},
+    span_conform   |-> {"DRIFT"},
+    reg_mutex      |-> {"C08"},
     rt_ok          |-> {"C01"},
     rt_n           |-> {"C01"},
     rt_val         |-> {"C01"} ]
@@ -244,6 +248,46 @@ JRecheck(line) ==
               THEN If(\A i \in 1..Len(line.obs.nocopy) : \A j \in 1..Len(line.obs.nocopy[i].bytes) : line.obs.nocopy[i].bytes[j] = 255,
                       "nocopy_follows")
               ELSE {}) ]
+
+\* ---- instrumentation events (build tag verif): conformance with the layer-B models ------------
+\* Allocator events are replayed through SpanOps: the address handed out must be aligned and inside
+\* its block (consequences of C06), and equal to what the model computes (otherwise the model has
+\* drifted from the code: reported as DRIFT, never as a violation).  Registry events must respect the
+\* mutex: the plain maps, the links and the table stores are only touched by the lock holder (C08).
+\* sp: span id (as a string) -> [p, n, bm] (n < 0: block size unknown, bm then known modulo 64 only)
+RECURSIVE HookFold(_, _, _)
+HookFold(evs, i, acc) ==
+  IF i > Len(evs) THEN acc
+  ELSE LET e == evs[i] IN
+  IF e.k = "block" THEN
+       HookFold(evs, i + 1, [acc EXCEPT !.sp = (ToString(e.span) :> [p |-> 0, n |-> e.size, bm |-> e.bm]) @@ @,
+                                        !.fail = @ \cup If(e.size >= BlockSize, "span_conform")])
+  ELSE IF e.k = "malloc" THEN
+       LET id == ToString(e.span) IN
+       IF id \notin DOMAIN acc.sp \/ e.rel < 0 THEN
+            \* first sight of this span in this trace: adopt what is observed
+            HookFold(evs, i + 1, [acc EXCEPT !.sp = (id :> [p |-> e.rel + e.n, n |-> -1, bm |-> (e.amod + 64 - (e.rel % 64)) % 64]) @@ @,
+                                             !.fail = @ \cup If(e.amod % e.align = 0, "span_aligned")])
+       ELSE LET st == acc.sp[id]
+                known == st.n >= 0
+                exp == ResultRel(st, e.n, e.align)
+                bad == If(e.amod % e.align = 0, "span_aligned") \cup
+                       (IF known THEN If(e.rel >= 0 /\ e.rel + e.n <= st.n, "span_inblock") \cup
+                                      If(Fits(st, e.n, e.align) /\ e.rel = exp, "span_conform")
+                        ELSE If(e.rel >= st.p, "span_inblock")) IN
+            HookFold(evs, i + 1, [acc EXCEPT !.sp = (id :> [st EXCEPT !.p = e.rel + e.n]) @@ @, !.fail = @ \cup bad])
+  ELSE IF e.k = "direct" THEN
+       HookFold(evs, i + 1, [acc EXCEPT !.fail = @ \cup If(e.typed \/ e.n > 256, "span_conform")])
+  ELSE IF e.k = "lock" THEN
+       HookFold(evs, i + 1, [acc EXCEPT !.holder = e.g, !.fail = @ \cup If(acc.holder = 0, "reg_mutex")])
+  ELSE IF e.k = "unlock" THEN
+       HookFold(evs, i + 1, [acc EXCEPT !.holder = 0, !.fail = @ \cup If(acc.holder = e.g, "reg_mutex")])
+  ELSE \* pf / link / store / rollback: only the lock holder
+       HookFold(evs, i + 1, [acc EXCEPT !.fail = @ \cup If(acc.holder = e.g, "reg_mutex")])
+
+JHooks(line, sp) ==
+  LET r == HookFold(line.obs.events, 1, [sp |-> sp, holder |-> 0, fail |-> {}]) IN
+  [fail |-> r.fail, cls |-> "Hooks>" \o line.obs.out, sp |-> r.sp]
 
 \* ---- concurrent sections (C08) --------------------------------------------------------
 \* The calls made inside a concurrent section are ordinary lines, judged like sequential calls
